@@ -174,7 +174,17 @@ pub fn run(ctx: &mut Ctx) {
                 if it.sched_idx != 0 {
                     c.nontrivial();
                 }
-                check_stream(c, &it.cfg, &it.inp.data, &t.out, None, None)
+                check_stream(c, &it.cfg, &it.inp.data, &t.out, None, None)?;
+                // the stream carried on by a duplicate (deflateCopy after the first / second / third call, the original
+                // ended) is as well-formed; on schedules that leave output pending between calls
+                if it.sched.tail_room != AMPLE && it.sched.tail_room >= 2 && t.calls.len() > 3 && (it.sched_idx + it.inp.data.len()) % 3 == 0 {
+                    for k in [1usize, 2, 3] {
+                        c.exec();
+                        let tk = run_deflate::<Rs>(&it.cfg, &it.inp.data, it.sched, &env, &DExtra { copy_after_call: k, ..Default::default() }, None)?;
+                        check_stream(c, &it.cfg, &it.inp.data, &tk.out, None, None).map_err(|e| format!("continued on a deflateCopy taken after call {k}: {e}"))?;
+                    }
+                }
+                Ok(())
             },
         );
     });
